@@ -101,6 +101,7 @@ pub struct RxPeer {
     timer_ns: u64,
     max_retries: u32,
     handshake: bool,
+    quiet_dups: bool,
     expected: u64,
     since_ack: u64,
     gap_acked: bool,
@@ -121,6 +122,7 @@ impl RxPeer {
             timer_ns: spec.peer.timer_ns,
             max_retries: spec.peer.retries,
             handshake: spec.check_response,
+            quiet_dups: spec.peer.quiet_dups,
             expected: 1,
             since_ack: 0,
             gap_acked: false,
@@ -178,6 +180,9 @@ impl RxPeer {
                     }
                     vec![]
                 } else if a < self.expected as i64 {
+                    if self.quiet_dups {
+                        return vec![];
+                    }
                     // RFC 1350: a duplicate is acknowledged again
                     vec![self.ack(now, self.expected - 1)]
                 } else {
